@@ -127,9 +127,13 @@ func runSolver(ctx context.Context, s solverSpec, file string, timeout int) solv
 
 // discharge races the solvers on one obligation.
 func (o *Obligation) discharge(w *World, dir string, timeout int, all bool) {
-	if o.Goal == "true" || o.Reach == "false" {
+	if !o.Smoke && (o.Goal == "true" || o.Reach == "false") {
 		o.Status = "discharged"
 		o.Solver = "syntactic"
+		return
+	}
+	if o.Smoke {
+		o.dischargeSmoke(w, dir)
 		return
 	}
 	file := filepath.Join(dir, sanitize(o.Name)+".smt2")
@@ -237,3 +241,43 @@ func dischargeAll(w *World, obls []*Obligation, dir string, timeout int, all boo
 	}
 	wg.Wait()
 }
+
+// dischargeSmoke: the query (facts /\ reach) must be satisfiable, i.e. NOT refutable.
+// With quantified axioms solvers answer unknown/timeout rather than sat; anything but
+// unsat counts as "reachable as far as the solvers can tell".
+func (o *Obligation) dischargeSmoke(w *World, dir string) {
+	if o.Reach == "false" {
+		o.Status = "failed"
+		o.Detail = "exit syntactically unreachable"
+		return
+	}
+	file := filepath.Join(dir, sanitize(o.Name)+".smt2")
+	if err := os.WriteFile(file, []byte(o.query(w)), 0o644); err != nil {
+		o.Status = "error"
+		return
+	}
+	defer os.Remove(file)
+	ctx, cancel := context.WithCancel(context.Background())
+	defer cancel()
+	ch := make(chan solveResult, 2)
+	for _, s := range solvers[:2] {
+		go func(s solverSpec) { ch <- runSolver(ctx, s, file, smokeTimeout) }(s)
+	}
+	var ds []string
+	for i := 0; i < 2; i++ {
+		r := <-ch
+		ds = append(ds, fmt.Sprintf("%s:%s(%.2fs)", r.solver, r.status, r.time))
+		if r.status == "unsat" {
+			o.Status = "failed"
+			o.Detail = "VACUOUS: assumptions are contradictory at this point: " + strings.Join(ds, " ")
+			return
+		}
+		if r.status == "sat" {
+			break
+		}
+	}
+	o.Status = "discharged"
+	o.Solver = "smoke(" + strings.Join(ds, " ") + ")"
+}
+
+var smokeTimeout = 2
